@@ -220,7 +220,7 @@ pub fn run(tier: Tier, seed: u64) -> i32 {
         return run_worker(units(tier, seed), k, of, run_unit);
     }
     let ctx = Ctx::new("C17", tier, seed, "fault_enumeration");
-    ctx.set_rule("generated batches (seeded SplitMix from VERIF_SEED): 1..8 two-party policies in flight at once sharing one semaphore per party, concurrency 1..3, mixed leaders, constants from none/some parties, destination present or absent, random interleaving of all sessions' schedule calls and coordination RPC deliveries (choice vector); second family: 1..3 two-party or 1..2 three-party policies with a failure injected into one validate / run / consts RPC (for three parties: towards one of the two peers only); oracle: (1) per party, the number of sessions it leads whose interval [first run sent, leader's last activity] overlaps never exceeds the concurrency; (2) undisturbed batch: exactly one correct result per destination, every state machine stopped, every semaphore full at exact quiescence; (3) failed RPC: the caller's state machine has stopped, its destination received at most one notification and (run/consts) exactly one error, a failed validate is reported by the schedule call, and the caller's budget is complete; the callee side may linger; third family: 1..4 policies of which one is cancelled at every party at a generated step - (4) once every cancel returned Ok the session's state machines have stopped, no destination got a second notification, the other sessions still deliver their correct results and, when everything has ended, all permits are back; non-trivial = batch with >= 2 sessions or a fired failure; distinct by hash of the batch");
+    ctx.set_rule("generated batches (seeded SplitMix from VERIF_SEED): 1..8 two-party policies in flight at once sharing one semaphore per party, concurrency 1..3, mixed leaders, constants from none/some parties, destination present or absent, random interleaving of all sessions' schedule calls and coordination RPC deliveries (choice vector); second family: 1..3 two-party or 1..2 three-party policies with a failure injected into one validate / run / consts RPC (for three parties: towards one of the two peers only); oracle: (1) per party, the number of sessions it leads whose interval [first run sent, last MPC message sent / result notified by the leader] overlaps never exceeds the concurrency; (2) undisturbed batch: exactly one correct result per destination, every state machine stopped, every semaphore full at exact quiescence; (3) failed RPC: the caller's state machine has stopped, its destination received at most one notification and (run/consts) exactly one error, a failed validate is reported by the schedule call, and the caller's budget is complete; the callee side may linger; third family: 1..4 policies of which one is cancelled at every party at a generated step - (4) once every cancel returned Ok the session's state machines have stopped, no destination got a second notification, the other sessions still deliver their correct results and, when everything has ended, all permits are back; non-trivial = batch with >= 2 sessions or a fired failure; distinct by hash of the batch");
     let n_units = units(tier, seed).len();
     ctx.extra("work_units", json!(n_units));
     run_parent(&ctx, "C17", n_units);
